@@ -15,15 +15,16 @@ FIELDS = ("node_id", "child_id", "command", "ack", "message_type", "payload")
 VWRAP = "aiomysensors.model.protocol.protocol_14.handle_missing_protocol_version"
 MWRAP = "aiomysensors.model.protocol.protocol_20.handle_missing_node_child"
 SEND = "aiomysensors.gateway.Gateway.send"
+WAKE_TYPES = {"2.0": (22,), "2.1": (22,), "2.2": (32,)}
 
 
 def run(ctx: Ctx, chk) -> None:
     chk.assume("A1", "A3")
-    reply_table(ctx, chk)
-    unbuf1(ctx, chk)
-    wrap_exact(ctx, chk)
-    wrap_cond(ctx, chk)
-    writers1(ctx, chk)
+    chk.run_rule(reply_table, ctx)
+    chk.run_rule(unbuf1, ctx)
+    chk.run_rule(wrap_exact, ctx)
+    chk.run_rule(wrap_cond, ctx)
+    chk.run_rule(writers1, ctx)
 
 
 def message_term(ctx: Ctx, f: FuncInfo, e: ast.expr):
@@ -198,37 +199,7 @@ def unbuf1(ctx: Ctx, chk) -> None:
             chk.refute(rule, key, f"`{norm(call)[:80]}` is sent with buffering {'enabled by default' if flag == 'default' else flag}: a reaction to a sleeping node is parked instead of written immediately", ctx.loc(f, call))
     if marker > 1:
         chk.refute(rule, "marker-sends", f"{marker} buffered sends in the missing-node wrapper", "")
-    # None propagation
-    send = ctx.func(SEND)
-    for V in ctx.versions:
-        fr = Frame(I.make_callee(send, send.cls), V).bind("message_buffer", frozenset([Const(False)]))
-        calls = [n for n in ctx.own_nodes(send) if isinstance(n, ast.Call) and isinstance(n.func, ast.Name) and n.func.id == "message_handler"]
-        if len(calls) != 1:
-            raise AnalysisError("UNBUF-1: handler call in Gateway.send not found")
-        c = calls[0]
-        chk.instance(rule)
-        vals = I.eval(c.args[2], fr) if len(c.args) >= 3 else frozenset([UNKNOWN])
-        key = f"{send.fq}::buffer-argument"
-        if vals == frozenset([Const(None)]):
-            chk.ok(rule, f"{key}@{V}", "message_buffer=False -> the handler receives None", ctx.loc(send, c), sample=V == "1.4")
-        else:
-            chk.refute(rule, key, f"with message_buffer=False the outgoing handler receives {sorted(map(repr, vals))} instead of None: reactions can be parked", ctx.loc(send, c), version=V)
-        for t in I.resolve_call(c, fr):
-            if t.kind != "repo" or t.frame is None:
-                continue
-            hf = t.frame.func
-            for attr in sb.BUFFERS:
-                for st, _k, _v in sb.store_sites(ctx, hf, attr):
-                    chk.instance(rule)
-                    g = CFG(hf.node)
-                    snodes = g.nodes_of(sb._stmt(ctx, hf, st))
-                    tests = [x for x in g.nodes if x.kind == "test" and all(g.dominates(x, s) for s in snodes)]
-                    k = f"{hf.fq}::park-branch::{attr}"
-                    dead = any(I.truth(x.ast, t.frame) is False for x in tests)
-                    if dead:
-                        chk.ok(rule, f"{k}@{V}", "parking branch definitely not taken when the buffer argument is None", ctx.loc(hf, st), sample=V == "1.4")
-                    else:
-                        chk.refute(rule, k, f"{hf.qualname} can park in {attr} although the buffer argument is None (message_buffer=False)", ctx.loc(hf, st), version=V)
+    sb.none_propagation(ctx, chk, rule)
 
 
 def wrap_exact(ctx: Ctx, chk) -> None:
@@ -283,17 +254,26 @@ def wrap_cond(ctx: Ctx, chk) -> None:
         raise AnalysisError("WRAP-COND: expected exactly one send in the version wrapper")
     g = CFG(w.node)
     snodes = g.nodes_where(lambda x: x.contains(sends[0]))
-    # the finally body exists once per continuation kind: each copy of the send has its own copy of the test
-    conds = {}
+    # the finally body exists once per continuation kind: evaluate, per copy of the send, the conjunction of
+    # every dominating test with the polarity of the branch that leads to the send
+    guard_sets = []
     for sn in snodes:
-        doms = [t for t in g.nodes if t.kind == "test" and g.dominates(t, sn)]
-        if not doms:
-            raise AnalysisError("WRAP-COND: a copy of the version query is unconditional")
-        for t in doms:
-            conds[id(t.ast)] = t.ast
-    if len(conds) != 1:
-        raise AnalysisError(f"WRAP-COND: {len(conds)} conditions guard the version query")
-    cond = list(conds.values())[0]
+        gs = []
+        for t in g.nodes:
+            if t.kind != "test" or not g.dominates(t, sn):
+                continue
+            t_ok = any(lab == "t" and (s2 is sn or g.reach_avoiding([s2], lambda x, sn=sn: x is sn, lambda x, t=t: x is t, from_succ=False) is not None) for s2, lab in t.succ)
+            f_ok = any(lab == "f" and (s2 is sn or g.reach_avoiding([s2], lambda x, sn=sn: x is sn, lambda x, t=t: x is t, from_succ=False) is not None) for s2, lab in t.succ)
+            if t_ok and not f_ok:
+                gs.append((t.ast, True))
+            elif f_ok and not t_ok:
+                gs.append((t.ast, False))
+        guard_sets.append(gs)
+    sigs = {tuple((norm(a), pol) for a, pol in gs) for gs in guard_sets}
+    if len(sigs) != 1:
+        raise AnalysisError(f"WRAP-COND: the copies of the version query are guarded differently: {sorted(sigs)}")
+    guards = guard_sets[0]
+    cond = guards[0][0] if guards else None
     msg = message_param(w)
     V = "1.4"
     log, ready = _ival(ctx, V, "I_LOG_MESSAGE"), _ival(ctx, V, "I_GATEWAY_READY")
@@ -304,7 +284,7 @@ def wrap_cond(ctx: Ctx, chk) -> None:
                 n += 1
                 chk.instance(rule)
                 env = {"gateway.protocol_version": version, f"{msg}.command": command, f"{msg}.message_type": mtype}
-                got = _evalcond(ctx, w, cond, env)
+                got = all(bool(_evalcond(ctx, w, a, env)) == pol for a, pol in guards)
                 want = version is None and not (command == 3 and mtype in (log, ready))
                 cell = f"version={'None' if version is None else 'known'},command={'internal' if command == 3 else 'other'},type={'log' if mtype == log else 'gateway-ready' if mtype == ready else 'other'}"
                 if got == want:
@@ -373,8 +353,33 @@ def writers1(ctx: Ctx, chk) -> None:
             chk.ok(rule, f"{e}::present", "writer present", "", sample=False)
         else:
             chk.refute(rule, f"{e}::present", f"{e} no longer writes its specified reaction", "")
-    # gateway-ready reaction only in >= 2.0 tables, present there
+    # per version: the cells with a specified reaction run a writer; every other cell runs none
     cells = tables.handler_cells(ctx)
+    wrapper_fqs = {I.wrapper_of(ctx.func(VWRAP)).fq, I.wrapper_of(ctx.func(MWRAP)).fq}
+    flush_fqs = {f.fq for f in sb.flush_functions(ctx)}
+    writer_defs = {f for f in writers if f.fq not in wrapper_fqs and f.fq not in flush_fqs}
+    for V in ctx.versions:
+        want_cells = {("cmd", "req"): "handle_req", ("cmd", "set"): "handle_set", ("internal", _ival(ctx, V, "I_ID_REQUEST")): "handle_i_id_request", ("internal", _ival(ctx, V, "I_CONFIG")): "handle_i_config", ("internal", _ival(ctx, V, "I_TIME")): "handle_i_time"}
+        if V.startswith("2."):
+            want_cells[("internal", _ival(ctx, V, "I_GATEWAY_READY"))] = "handle_i_gateway_ready"
+        for cell, cal in cells[V].items():
+            if cell == ("cmd", "internal") or cell == ("cmd", "stream"):
+                continue
+            chk.instance(rule)
+            chain = tables.chain_defs(ctx, cal, V) if cal is not None else []
+            has = [f for f in chain if f in writer_defs]
+            nm = want_cells.get(cell)
+            key = f"cell-writer::{cell}"
+            if nm is not None:
+                if has:
+                    chk.ok(rule, f"{key}@{V}", f"{nm} reacts", has[0].where, sample=False)
+                else:
+                    chk.refute(rule, f"{nm}::no-reaction::{V}", f"under protocol {V} the handler chain of {nm} ({[f.qualname for f in chain]}) contains no definition that writes the specified reaction", chain[0].where if chain else "", version=V)
+            elif has and not (cell[0] == "internal" and cell[1] in (w_ for w_ in WAKE_TYPES.get(V, ()))):
+                chk.refute(rule, f"{has[0].fq}::unspecified-reaction::{V}", f"under protocol {V} {cell} runs {has[0].qualname}, which writes to the gateway although the statement specifies no reaction for it", has[0].where, version=V)
+            else:
+                chk.ok(rule, f"{key}@{V}", "no reaction specified, none written", "", sample=False)
+    # gateway-ready reaction only in >= 2.0 tables, present there
     for V in ctx.versions:
         chk.instance(rule)
         ready = _ival(ctx, V, "I_GATEWAY_READY")
